@@ -413,6 +413,9 @@ def expand(template_path, std=True):
             cur_props = s.split()[1].split(",")
             out.append("// props " + ",".join(cur_props))
         elif s.startswith("//@item "):
+            noderive = s.endswith(" noderive")
+            if noderive:
+                s = s[:-len(" noderive")].rstrip()
             m = re.match(r"//@item (\S+) /(.*)/\s*(fieldspub)?\s*$", s)
             if not m:
                 raise Undecided("bad directive: " + s)
@@ -444,7 +447,7 @@ def expand(template_path, std=True):
                     break
                 if k <= 0:
                     break
-            if derives:
+            if derives and not noderive:
                 text = "\n".join(derives) + "\n" + text
             text = resolve_cfg(text, std, g.log)
             text = fix_vis(strip_attrs(text))
